@@ -528,18 +528,21 @@ class HyperscanTokenizer(Tokenizer):
             last_byte_offset = byte_offset
 
         # Narrow down our matches to only those that successfully decoded,
-        # re-run regex against just the matching span to get match groups
+        # re-run regex from the start of the matching span to get match groups
         # (which aren't provided by hyperscan), and tokenize. Match within
         # the full text rather than against a substring, so that "^" can't
         # match at the start of the span and let an optional leading space
-        # of the pattern swallow the boundary character:
+        # of the pattern swallow the boundary character, and so that "$"
+        # can't match at the end of the span when the text goes on. Hyperscan
+        # reports every possible end offset; keep the one the regex prefers:
         for index, (start, end) in matches:
             extractor = self.extractors[index]
             if start in byte_to_str_offset and end in byte_to_str_offset:
                 start = byte_to_str_offset[start]
                 end = byte_to_str_offset[end]
-                m = extractor.compiled_regex.match(text, start, end)
-                yield extractor.get_token(m)
+                m = extractor.compiled_regex.match(text, start)
+                if m and m.end() == end:
+                    yield extractor.get_token(m)
 
     @property
     def hyperscan_db(self):
